@@ -117,7 +117,13 @@ def run_one(a, name, path, prop, neutral, results):
         tests = None
         if a.with_tests:
             tests = passes_unit_tests(path)
-        d = make_scratch(path)
+        try:
+            d = make_scratch(path)
+        except RuntimeError as e:
+            # a patch that no longer applies to the current tree is a failed item, not a crash
+            results.append({"mutant": name, "property": prop, "neutral": neutral, "exit": None, "signatures": [], "ok": False, "error": str(e)[:300]})
+            print(f"FAIL {prop} {name:55s} PATCH DOES NOT APPLY: {str(e)[:160]}", flush=True)
+            return 1
         t0 = time.time()
         try:
             env = dict(os.environ)
